@@ -90,5 +90,9 @@ noncomputable instance : LawfulNum ℝ where
   abs_mul_pos := fun a c hc => by
     show |a * c| = |a| * c
     rw [abs_mul, abs_of_pos hc]
+  abs_le_zero_iff := fun a => by
+    show decide (|a| ≤ 0) = true ↔ a = 0
+    simp only [decide_eq_true_eq]
+    exact abs_nonpos_iff
 
 end NumbatModel.Qty
